@@ -14,6 +14,7 @@ import (
 func GenWireQueries(g *Gen, n int, badvers bool) []Query {
 	r := g.R
 	var qs []Query
+	declared := DeclaredTypes(g)
 	for len(qs) < n {
 		var name Name
 		cls := "rand"
@@ -54,7 +55,14 @@ func GenWireQueries(g *Gen, n int, badvers bool) []Query {
 			cls = "long"
 		}
 		q := QSpec{Name: name, ID: r.Intn(65536), Flags: r.Intn(32), Class: 1, Opcode: 0}
-		q.Type = []int{1, 28, 2, 6, 43, 255, 16, 5, 15, 0, 41, 250, 251, 252, 65535, r.Intn(65536)}[r.Intn(16)]
+		q.Type = []int{1, 28, 2, 6, 43, 255, 16, 5, 15, 0, 41, 250, 251, 252, 65535, r.Intn(65536), 64, 65}[r.Intn(18)]
+		if ts := declared[string(name.Lower().Pack())]; len(ts) > 0 && r.Chance(1, 2) {
+			// a type declared at this very name, or ANY: every record type is served at least once
+			q.Type = ts[r.Intn(len(ts))]
+			if r.Chance(1, 4) {
+				q.Type = 255
+			}
+		}
 		if r.Chance(1, 3) {
 			q.Class = []int{0, 1, 3, 4, 254, 255, r.Intn(65536)}[r.Intn(7)]
 		}
@@ -104,6 +112,28 @@ func GenWireQueries(g *Gen, n int, badvers bool) []Query {
 			continue
 		}
 		qs = append(qs, Query{Wire: wire, Client: Clients[r.Intn(len(Clients))], Max: []int{1, 1, 2, 3, 0, 8}[r.Intn(6)], Class_: cls})
+	}
+	if !badvers {
+		// every service-binding record and a quarter of the others: its own name and type, or ANY
+		for _, l := range g.Lines {
+			for _, rc := range l.Recs {
+				if !(rc.Type == 64 || rc.Type == 65 || r.Chance(1, 4)) || rc.Wild {
+					continue
+				}
+				q := QSpec{Name: unpackName(hlib.Unints(rc.Owner)), Type: rc.Type, Class: 1, ID: r.Intn(65536), Flags: r.Intn(32)}
+				if r.Chance(1, 4) {
+					q.Type = 255
+				}
+				if r.Chance(1, 3) {
+					q.Edns, q.Size = true, []int{512, 1232, 4096}[r.Intn(3)]
+				}
+				wire, err := PackQuery(q)
+				if err != nil {
+					continue
+				}
+				qs = append(qs, Query{Wire: wire, Client: Clients[r.Intn(len(Clients))], Max: []int{1, 1, 2, 3, 0, 8}[r.Intn(6)], Class_: "declared-type"})
+			}
+		}
 	}
 	return qs
 }
@@ -275,7 +305,7 @@ func genCacheQuestions(g *Gen, k int) []*cacheQuestion {
 	seen := map[string]bool{}
 	for tries := 0; len(res) < k && tries < 20*k; tries++ {
 		cq := &cacheQuestion{Class: 1, Client: Clients[r.Intn(len(Clients))], Max: []int{1, 1, 2, 3, 8}[r.Intn(5)]}
-		cq.Type = []int{1, 28, 2, 6, 16, 15, 255, 5, 43, 1, 16, 2}[r.Intn(12)]
+		cq.Type = []int{1, 28, 2, 6, 16, 15, 255, 5, 43, 1, 16, 2, 64, 65}[r.Intn(14)]
 		base := Name{}
 		if len(g.Names) > 0 {
 			base = append(Name{}, g.Names[r.Intn(len(g.Names))]...)
